@@ -28,6 +28,7 @@ ShapeOf(kind) ==
   CASE kind = "cell1" -> <<Nel>> [] kind = "cell3" -> <<3 * Nel>> [] kind = "point1" -> <<NNodes>>
     [] kind = "point2" -> <<2 * NNodes>> [] kind = "point3" -> <<3 * NNodes>>
     [] kind = "cellblock" -> <<2, Nel>> [] kind = "cellblockT" -> <<Nel, 3>> [] kind = "pointblock" -> <<2, 2 * NNodes>>
+    [] kind = "pointblockT" -> <<2 * NNodes, 3>> [] kind = "point3blockT" -> <<3 * NNodes, 2>>
     [] kind = "neither" -> <<Nel * NNodes + 1>>
 SizeOf(sh) == IF Len(sh) = 1 THEN sh[1] ELSE sh[1] * sh[2]
 (* deterministic small-integer data (exact in single precision): entry idx (0-based, row major) of vector v at iteration it *)
@@ -36,7 +37,7 @@ Datum(it, v, idx) == 100 * v + 10 * it + (idx % 7) - 3
 Classify(size) == IF size % Nel = 0 THEN "cell" ELSE IF size % NNodes = 0 THEN "point" ELSE "skip"
 (* the property is stated for domains / vectors where node-sized data is not also a multiple of the element count *)
 Admissible == \A v \in 1..Len(Vecs) : LET sh == ShapeOf(Vecs[v].kind) IN
-                 (Vecs[v].kind \in {"point1", "point2", "point3", "pointblock"}) => SizeOf(sh) % Nel # 0
+                 (Vecs[v].kind \in {"point1", "point2", "point3", "pointblock", "pointblockT", "point3blockT"}) => SizeOf(sh) % Nel # 0
 
 Arrays(it, v, cls) ==
   LET sh == ShapeOf(Vecs[v].kind)
